@@ -35,6 +35,9 @@ def run(ctx):
     ctx.guarded("R09.3", "pairing", lambda: pairing(ctx, "R09.3"))
     ctx.guarded("R09.4", "hangup", lambda: hangup(ctx, "R09.4"))
     ctx.guarded("R09.5", "closed-enqueue", lambda: closed_enqueue(ctx, "R09.5"))
+    ctx.rule("R09.6", "every accepted stream that is served was switched to non-blocking mode first; read()/write() make one try_read/try_write each")
+    ctx.guarded("R09.6", "nonblocking", lambda: nonblocking(ctx, "R09.6"))
+    ctx.guarded("R09.6", "single-io", lambda: single_io(ctx, "R09.6"))
 
 
 def write_guard(ctx):
@@ -290,3 +293,54 @@ def closed_enqueue(ctx, rule):
         for bb, t in f.calls_to(conn.P + "enqueue_response"):
             callers.add(f.name)
     ctx.ob(rule, "enqueue|callers", callers <= {CC + "enqueue_response", CC + "read"}, "callers of HttpConnection::enqueue_response: %s" % sorted(callers))
+
+
+def nonblocking(ctx, rule):
+    """The stream handed to HttpConnection::new comes from accept() and had set_nonblocking(true) applied
+    (Linux does not inherit O_NONBLOCK from the listener)."""
+    facts = ctx.facts
+    fn, lv = leaves(ctx, srv.HNC)
+    n = 0
+    for lf in lv:
+        thens = [e for e in lf.events if e[0] == "call" and last_seg(e[3]) == "and_then"]
+        if not thens:
+            continue
+        n += 1
+        # chain: accept().map_err().and_then(c0).and_then(c1): c1 builds the connection, c0 must set non-blocking
+        ok = False
+        closures = []
+        for e in thens:
+            c = look(e[4][2][1])
+            if c[0] == "closure":
+                closures.append(c[1])
+        builder = None
+        setter = None
+        for cname in closures:
+            cf = facts.fns.get(cname)
+            if cf is None:
+                continue
+            names = {t["callee"].get("path") for bb, t in cf.calls()}
+            sub = {t["callee"].get("path") for cl in facts.closures_of(srv.HNC) if cl.d.get("parent") == srv.HNC for bb, t in cl.calls()}
+            if conn.P + "new" in names:
+                builder = cname
+            if "std::os::unix::net::UnixStream::set_nonblocking" in names:
+                setter = cname
+        order_ok = builder is not None and setter is not None and closures.index(setter) < closures.index(builder)
+        arg_true = False
+        if setter:
+            _, ls = leaves(ctx, setter)
+            for l2 in ls:
+                for e in l2.events:
+                    if e[0] == "call" and e[3] == "std::os::unix::net::UnixStream::set_nonblocking":
+                        arg_true = look(e[4][2][1]) == ("const", True)
+        src_ok = any(e[0] == "call" and last_seg(e[3]) == "accept" for e in lf.events)
+        ctx.ob(rule, "accepted-stream-nonblocking", order_ok and arg_true and src_ok, "the accepted stream passes through set_nonblocking(true) before HttpConnection::new wraps it (setter %s, builder %s)" % (setter and setter.split("::")[-1], builder and builder.split("::")[-1]), fn.loc(lf.bb))
+    ctx.ob(rule, "nonblocking|floor", n >= 1, "%d accepting path(s) inspected" % n)
+
+
+def single_io(ctx, rule):
+    for w, callee in (("read", conn.TRY_READ), ("write", conn.TRY_WRITE)):
+        fn = ctx.facts.fn(CC + w)
+        sites = [bb for bb, t in fn.calls_to(callee)]
+        cyc = fn.cyclic_blocks()
+        ctx.ob(rule, "%s|one-%s" % (w, callee.split("::")[-1]), len(sites) == 1 and sites[0] not in cyc, "ClientConnection::%s makes exactly one %s call, outside any cycle (sites %s): one notification, one non-blocking I/O attempt" % (w, callee.split("::")[-1], sites), fn.loc(sites[0]) if sites else fn.loc(0))
